@@ -43,7 +43,11 @@ type Gen struct {
 	// Feature switches: kinds listed here are NOT generated (quarantine of open findings).
 	Avoid map[string]bool
 	// Features used by the last GenType/GenValue.
-	Features   map[string]bool
+	Features map[string]bool
+	// WideAny: an interface-typed field, element or map value may also hold a value of ANY generated type (a struct,
+	// a pointer, a typed slice or map, a named scalar, a TextMarshaler), not only the dynamic types a decoder
+	// produces. Only for encode-direction checks: such a value does not come back in its own type.
+	WideAny    bool
 	keys       map[string]bool
 	nfield     int
 	embedDepth int
@@ -85,6 +89,33 @@ type (
 		B int16
 	}
 )
+
+// Named container types (reflect cannot make named types): the codec must treat them by kind, with or without
+// methods that have nothing to do with encoding.
+type (
+	NamedInts     []int32
+	NamedLongs    []int64
+	NamedStrs     []string
+	NamedShorts   []int16
+	NamedShortMap map[string]int16
+	NamedIntArr   [3]int32
+	NamedByteArr  [2]uint8
+	NamedTexts    []TextV
+)
+
+func (n NamedLongs) Sum() (s int64) {
+	for _, x := range n {
+		s += x
+	}
+	return s
+}
+
+func (n NamedShortMap) Size() int { return len(n) }
+
+var namedContainers = []reflect.Type{
+	reflect.TypeOf(NamedBytes(nil)), reflect.TypeOf(NamedInt8s(nil)), reflect.TypeOf(NamedInts(nil)), reflect.TypeOf(NamedLongs(nil)), reflect.TypeOf(NamedStrs(nil)),
+	reflect.TypeOf(NamedShorts(nil)), reflect.TypeOf(NamedShortMap(nil)), reflect.TypeOf(NamedIntArr{}), reflect.TypeOf(NamedByteArr{}), reflect.TypeOf(NamedTexts(nil)),
+}
 
 func textOf(a int32, b int16) []byte {
 	return []byte(strconv.Itoa(int(a)) + ":" + strconv.Itoa(int(b)))
@@ -174,9 +205,16 @@ func (g *Gen) GenType(depth int) reflect.Type {
 	if depth >= 4 {
 		return g.scalar()
 	}
-	switch r.Intn(13) {
+	switch r.Intn(14) {
 	case 0, 1, 2:
 		return g.scalar()
+	case 13:
+		t := namedContainers[r.Intn(len(namedContainers))]
+		if !g.ok("named-container") {
+			return g.scalar()
+		}
+		g.feat("named." + t.Kind().String())
+		return t
 	case 3, 4:
 		et := g.GenType(depth + 2)
 		if !g.ok("slice." + et.Kind().String()) {
@@ -186,6 +224,14 @@ func (g *Gen) GenType(depth int) reflect.Type {
 		return reflect.SliceOf(g.maybePtr(et, "ptr.elem"))
 	case 5:
 		et := g.scalar()
+		if r.Intn(3) == 0 && depth < 3 {
+			// arrays are not only arrays of scalars: [N][]T, [N][M]T, [N]struct, [N]map[string]T
+			switch ct := g.GenType(depth + 2); ct.Kind() {
+			case reflect.Slice, reflect.Array, reflect.Struct, reflect.Map:
+				et = ct
+				g.feat("array.of-composites")
+			}
+		}
 		if !g.ok("array."+et.Kind().String()) || !g.ok("array") {
 			return g.scalar()
 		}
@@ -321,7 +367,12 @@ func (g *Gen) genStruct(depth int, embedded bool) reflect.Type {
 		}
 		if isTypedArrayCandidate(ft) && r.Intn(3) == 0 && g.ok("tag.list") {
 			if r.Bool() {
-				opts += ",list"
+				if opts != "" && r.Bool() {
+					opts = ",list" + opts // the options in the other order
+					g.feat("tag.list-before-omitempty")
+				} else {
+					opts += ",list"
+				}
 			} else {
 				tag += `nbt_type:"list" `
 			}
@@ -484,6 +535,27 @@ func (g *Gen) fill(v reflect.Value, depth int) {
 			}
 		}
 	case reflect.Interface:
+		if g.WideAny && depth < 4 && r.Intn(3) == 0 {
+			saved := g.keys
+			g.keys = nil // a struct held by an interface is a compound of its own: a key space of its own
+			var t reflect.Type
+			switch r.Intn(4) {
+			case 0:
+				t = reflect.PointerTo(g.GenStruct(2)) // what a caller typically stores: a pointer to one of its structs
+			case 1:
+				t = g.GenStruct(2)
+			default:
+				t = g.GenType(2)
+			}
+			g.keys = saved
+			if t.Kind() != reflect.Interface {
+				hv := reflect.New(t).Elem()
+				g.fillElem(hv, depth+1)
+				v.Set(hv)
+				g.feat("any.holds." + t.Kind().String())
+				return
+			}
+		}
 		dv := g.dynValue(depth)
 		if dv.IsValid() {
 			v.Set(dv)
@@ -1370,6 +1442,12 @@ func Fits(t reflect.Type, want *refnbt.Value) bool {
 		if t.Kind() == reflect.Array && n >= 0 && n != t.Len() {
 			return false
 		}
+	case reflect.Map:
+		for _, e := range want.Comp {
+			if !Fits(t.Elem(), e.V) {
+				return false
+			}
+		}
 	case reflect.Struct:
 		if want.Tag != refnbt.Compound {
 			return true
@@ -1404,6 +1482,11 @@ func typesOf(vs ...any) []reflect.Type {
 	}
 	return out
 }
+
+// MoreTargets lets TargetFor offer Go maps with typed elements (map[string]int16, map[string][]int8,
+// map[NamedStr]*float32, ...) for compounds whose members all have one tag, and named slice / array types for int
+// and long arrays. Off by default: other monitors draw their receivers from TargetFor as well and keep their case lists.
+var MoreTargets bool
 
 // TargetFor builds a Go type able to hold the tree `want` using natural
 // typed targets: scalars of the wire width or wider (int and uint included),
@@ -1515,6 +1598,13 @@ func targetFor(r *vm.Rand, sibs []*refnbt.Value, depth int, feats map[string]boo
 		}
 		et := ets[r.Intn(len(ets))]
 		feats["target.intarray."+et.Kind().String()] = true
+		if MoreTargets && r.Intn(6) == 0 {
+			feats["target.named-slice"] = true
+			if sameLen() == 3 && r.Bool() {
+				return reflect.TypeOf(NamedIntArr{})
+			}
+			return reflect.TypeOf(NamedInts(nil))
+		}
 		return seq(et, sameLen())
 	case refnbt.LongArray:
 		feats["target.typedslice"] = true
@@ -1524,6 +1614,10 @@ func targetFor(r *vm.Rand, sibs []*refnbt.Value, depth int, feats map[string]boo
 		}
 		et := ets[r.Intn(len(ets))]
 		feats["target.longarray."+et.Kind().String()] = true
+		if MoreTargets && r.Intn(6) == 0 {
+			feats["target.named-slice"] = true
+			return reflect.TypeOf(NamedLongs(nil))
+		}
 		return seq(et, sameLen())
 	case refnbt.List:
 		feats["target.slice"] = true
@@ -1563,6 +1657,32 @@ func targetFor(r *vm.Rand, sibs []*refnbt.Value, depth int, feats map[string]boo
 		}
 		return reflect.SliceOf(et)
 	case refnbt.Compound:
+		if MoreTargets && len(want.Comp) > 0 && len(sibs) == 1 && r.Intn(5) == 0 {
+			// a Go map with typed elements, when every member has the same tag (and, for lists, the same scalar
+			// element tag): map[string]T, map[NamedStr]T, map[string]*T
+			same := true
+			var vals []*refnbt.Value
+			for _, e := range want.Comp {
+				v0 := want.Comp[0].V
+				if e.V.Tag != v0.Tag || e.V.Tag == refnbt.Compound || (e.V.Tag == refnbt.List && (e.V.Elem != v0.Elem || len(e.V.List) == 0 || e.V.Elem == refnbt.List || e.V.Elem == refnbt.Compound)) {
+					same = false
+				}
+				vals = append(vals, e.V)
+			}
+			if same {
+				et := targetFor(r, vals, depth+1, feats)
+				kt := stringType
+				if r.Intn(3) == 0 {
+					kt = namedStrType
+				}
+				if et.Kind() != reflect.Interface && r.Intn(4) == 0 {
+					et = reflect.PointerTo(et)
+					feats["target.map.typed-pointer-elements"] = true
+				}
+				feats["target.map.typed-elements"] = true
+				return reflect.MapOf(kt, et)
+			}
+		}
 		switch r.Intn(4) {
 		case 0:
 			feats["target.map"] = true
